@@ -68,6 +68,40 @@ theorem C15_facts :
     (Facts.dtlcp.suiteTable.filter (fun r => !r.2.2.2.2.2.1)).map (fun r => (r.2.2.1, r.2.2.2.1)) = [(32, 16), (32, 16)] := by
   decide
 
+/-- the configuration whose `PMTU` the write path reads, from the regenerated facts:
+`Clone` copies the field when its literal stores `<receiver>.PMTU` under `PMTU` (and the
+generic Clone fact of C01 does not list the field as missing / not verbatim), and
+`selectConfigForClient` installs what `GetConfigForClient` returned -/
+def cfgHere : CfgConsts :=
+  { cloneCopiesPmtu := Facts.dtlcp.clonePmtu == Facts.dtlcp.cloneRecv ++ ".PMTU" &&
+      !Facts.dtlcp.cloneMissing.contains "PMTU" && !Facts.dtlcp.cloneNotVerbatim.contains "PMTU",
+    forClientInstalled :=
+      Facts.dtlcp.txCfgAssigns.contains "Conn.selectConfigForClient: c.config = configForClient" &&
+      Facts.dtlcp.txCfgForClient.contains "if configForClient != nil { c.config = configForClient }" }
+
+/-- **Every way a configuration reaches the write path** (regenerated from the Go AST):
+`Client` and `Server` store the caller's `*Config`; the only other assignments to a `.config`
+selector in the package are the nil default of `clientHandshake` and the installation of the
+`GetConfigForClient` result in `selectConfigForClient` (called by `serverHandshake` only);
+no statement writes (or takes the address of) a `PMTU` field; the only composite literal with a
+`PMTU` key is the one `Config.Clone` returns, and it stores the receiver's value. -/
+theorem C15_config_facts :
+    Facts.missing = [] ∧
+    Facts.dtlcp.txPmtuSource = "c.config.PMTU" ∧
+    Facts.dtlcp.txCfgCtor = ["Client: config", "Server: config"] ∧
+    Facts.dtlcp.txCfgAssigns = ["Conn.clientHandshake: c.config = defaultConfig()",
+                                "Conn.selectConfigForClient: c.config = configForClient"] ∧
+    Facts.dtlcp.txCfgForClient = ["if c.config.GetConfigForClient != nil",
+                                  "configForClient, err := c.config.GetConfigForClient(chi)",
+                                  "if configForClient != nil { c.config = configForClient }"] ∧
+    Facts.dtlcp.txCfgForClientCallers = ["Conn.serverHandshake"] ∧
+    Facts.dtlcp.txPmtuWrites = [] ∧
+    Facts.dtlcp.txPmtuLits = ["Config.Clone: c.PMTU"] ∧
+    Facts.dtlcp.clonePmtu = Facts.dtlcp.cloneRecv ++ ".PMTU" ∧
+    Facts.dtlcp.cloneMissing.contains "PMTU" = false ∧ Facts.dtlcp.cloneNotVerbatim.contains "PMTU" = false ∧
+    cfgHere = { cloneCopiesPmtu := true, forClientInstalled := true } := by
+  decide
+
 /-- The repair of F9 is in the tree: the CBC branch of `maxPayloadSizeForWrite` rounds the
 budget down to the block size, keeps one padding byte and subtracts the MAC. -/
 theorem C15_cbc_padding_budgeted :
@@ -191,6 +225,59 @@ theorem C15_app_fits (pmtu : Int) (n : Nat) :
   · exact C15_app_fits_aead pmtu _ _ n
   · intro hw hn
     exact C15_app_fits_cbc here C15_cbc_padding_budgeted.1 pmtu 16 32 n (by decide) hw hn
+
+/-- **The configured path MTU is the one in force, however the configuration was obtained**:
+the value `maxPayloadSizeForWrite` reads from `c.config.PMTU` is the `PMTU` the application
+configured — when the `*Config` is handed to `Client` / `Server` directly, after any number of
+`Config.Clone()` calls, and when a listener configuration's `GetConfigForClient` returns it
+(cloned any number of times; whatever the listener's own PMTU). -/
+theorem C15_config_pmtu_in_force (r : Reach) (pmtu : Int) : pmtuRead cfgHere r pmtu = pmtu := by
+  have hk : cfgHere = { cloneCopiesPmtu := true, forClientInstalled := true } := C15_config_facts.2.2.2.2.2.2.2.2.2.2.2
+  have hv : ∀ v : Via, viaPmtu cfgHere v pmtu = pmtu := by
+    intro v
+    induction v with
+    | direct => rfl
+    | clone v ih => simp only [viaPmtu, hk, if_true]; rw [← hk]; exact ih
+  cases r with
+  | ctor v => exact hv v
+  | forClient lp v => simp only [pmtuRead, hk, if_true]; rw [← hk]; exact hv v
+
+/-- … so application datagrams fit the **configured** path MTU for every such connection:
+the budget is computed from what the write path reads, the bound is what the application set. -/
+theorem C15_app_fits_any_config (r : Reach) (pmtu : Int) (n : Nat) :
+    (1 ≤ rawBudget here (pmtuRead cfgHere r pmtu) gcmHere →
+      n ≤ maxPayloadSizeForWrite here (pmtuRead cfgHere r pmtu) gcmHere →
+      (recordLen here gcmHere n : Int) ≤ effPmtu pmtu) ∧
+    (1 ≤ rawBudget here (pmtuRead cfgHere r pmtu) cbcHere →
+      n ≤ maxPayloadSizeForWrite here (pmtuRead cfgHere r pmtu) cbcHere →
+      (recordLen here cbcHere n : Int) ≤ effPmtu pmtu) := by
+  rw [C15_config_pmtu_in_force r pmtu]
+  exact C15_app_fits pmtu n
+
+/-- for an arbitrary tree: the configured PMTU survives every derivation **iff** `Clone`
+copies it and `selectConfigForClient` installs the per-client configuration (the two facts
+`C15_config_facts` pins are exactly what the statement needs) -/
+theorem C15_config_pmtu_iff (k : CfgConsts) :
+    (∀ (r : Reach) (pmtu : Int), pmtuRead k r pmtu = pmtu) ↔
+      (k.cloneCopiesPmtu = true ∧ k.forClientInstalled = true) := by
+  constructor
+  · intro h
+    constructor
+    · have := h (.ctor (.clone .direct)) 1
+      simp only [pmtuRead, viaPmtu] at this
+      cases hc : k.cloneCopiesPmtu <;> simp [hc] at this ⊢
+    · have := h (.forClient 2 .direct) 1
+      simp only [pmtuRead, viaPmtu] at this
+      cases hc : k.forClientInstalled <;> simp [hc] at this ⊢
+  · intro ⟨h1, h2⟩ r pmtu
+    have hv : ∀ v : Via, viaPmtu k v pmtu = pmtu := by
+      intro v
+      induction v with
+      | direct => rfl
+      | clone v ih => simp only [viaPmtu, h1, if_true]; exact ih
+    cases r with
+    | ctor v => exact hv v
+    | forClient lp v => simp only [pmtuRead, h2, if_true]; exact hv v
 
 /-- **Every record a peer may legally send fits the receive buffer**, whatever either side's
 PMTU is: the buffer of `readDatagram` is a package constant (`C15_facts`: no reference to
@@ -332,6 +419,22 @@ example :
     -- the same datagram twice: the replay window drops the copy
     (rxRun P 13 replayHere 0 .readFrom st ((writeToWire here P 17 .none 257 0 5 data).take 1 ++
         (writeToWire here P 17 .none 257 0 5 data).take 1)).2 = [.data [1, 2, 3, 4], .skipped] := by decide
+
+/-- the class of defect `C15_config_pmtu_in_force` excludes: on a tree whose `Clone` drops the
+field, a connection driven by a clone of a configuration with PMTU 1200 budgets for the default
+1400 and hands a 1400-byte SM4-GCM datagram to a path configured for 1200; likewise a server
+that does not install the per-client configuration keeps the listener's PMTU -/
+example :
+    let bad : CfgConsts := { cfgHere with cloneCopiesPmtu := false }
+    pmtuRead bad (.ctor (.clone .direct)) 1200 = 0 ∧
+    maxPayloadSizeForWrite here (pmtuRead bad (.ctor (.clone .direct)) 1200) gcmHere = 1363 ∧
+    recordLen here gcmHere 1363 = 1400 ∧
+    pmtuRead { cfgHere with forClientInstalled := false } (.forClient 9000 (.clone .direct)) 1200 = 9000 ∧
+    -- this tree: direct, cloned twice, per-client clone behind a listener with another PMTU
+    pmtuRead cfgHere (.ctor (Via.clones 2)) 1200 = 1200 ∧
+    pmtuRead cfgHere (.forClient 9000 (.clone .direct)) 1200 = 1200 ∧
+    maxPayloadSizeForWrite here (pmtuRead cfgHere (.forClient 9000 (.clone .direct)) 1200) gcmHere = 1163 := by
+  decide
 
 /-- default PMTU, huge PMTU -/
 example : maxPayloadSizeForWrite here 0 .none = 1387 ∧ maxPayloadSizeForWrite here (-7) .none = 1387 ∧
